@@ -197,8 +197,8 @@ def entities(scn, vec, mods):
     gen.fresh(V)
     if scn.get("decor"):
         # every participant annotated with features of every unusual but legal shape
-        v = V(gen.crec(vec, "vec", features=gen.decorations(len(vec))))
-        ms = [M(gen.crec(m, "mod%d" % i, features=gen.decorations(len(m)))) for i, m in enumerate(mods)]
+        v = V(gen.contained(vec, "annotated", "vec"))
+        ms = [M(gen.contained(m, "annotated", "mod%d" % i)) for i, m in enumerate(mods)]
         return v, ms
     v = V(gen.crec(vec, "vec"))
     ms = [M(gen.crec(m, "mod%d" % i)) for i, m in enumerate(mods)]
